@@ -106,16 +106,15 @@ Definition ref_step (f : rfile) (op : fop) : rfile * fobs :=
    the standard library itself differs there (BytesIO stops at total >= hint,
    IOBase.readlines of the temporary file at total > hint). *)
 Definition ref_pre (k : fkind) (f : rfile) (op : fop) : bool :=
-  match k, op with
-  | KString, Write _ => Nat.eqb (rf_pos f) (length (rf_data f))
-  | KString, ReadLine (Some _) => false
-  | _, ReadLines (S _) => false
-  | KString, Seek off 0 => (0 <=? off)%Z && (off <=? Z.of_nat (length (rf_data f)))%Z
-  | KString, Seek off _ => (off =? 0)%Z
-  | KBytes, ReadLine (Some 0) => false
-  | KBytes, Seek off wh => (0 <=? seek_target f off wh)%Z &&
-                           (seek_target f off wh <=? Z.of_nat (length (rf_data f)))%Z
-  | _, _ => true
+  match op with
+  | Write _ => match k with KString => Nat.eqb (rf_pos f) (length (rf_data f)) | KBytes => true end
+  | ReadLine (Some n) => match k with KString => false | KBytes => negb (Nat.eqb n 0) end
+  | ReadLines (S _) => false
+  | Seek off wh =>
+      (wh <=? 2) && (0 <=? seek_target f off wh)%Z &&
+      (seek_target f off wh <=? Z.of_nat (length (rf_data f)))%Z &&
+      match k with KString => Nat.eqb wh 0 || (off =? 0)%Z | KBytes => true end
+  | _ => true
   end.
 
 (* the reference run: after every call, the value returned and tell() *)
